@@ -798,4 +798,371 @@ theorem no_token_ignored (cs : List Char) (n : Int) (c : Char) (rest : List Char
 
 example : nextToken ("-3B7d".toList.map Char.toLower) = some (-3, 'b', "7d".toList) := by decide
 
+/-! ### totality inside the claim: the conditional `= .ok r` theorems above are not vacuous anywhere on the quantifier -/
+
+/-- `'nb'` SUCCEEDS for every start at least 200 days inside the representable range and every |n| ≤ 60 (in particular for every
+1900 ≤ t < 2300 at any time of day): the hypotheses `bumpStr t (tenor n 'b') = .ok r` of `b_lands_str`, `b_nth_str`,
+`b_compose_str`, `b_inverse_str`, `b_mono_iff_str` are satisfiable for every such `(t, n)` -/
+theorem b_total (t n : Int) (h0 : 200 * DAYUS ≤ t) (h1 : t + 200 * DAYUS < MAXUS) (hn : -60 ≤ n ∧ n ≤ 60) :
+    ∃ r, bumpStr t (tenor n 'b') = .ok r := by
+  refine ⟨t + bOff (wdOf t) n * DAYUS, ?_⟩
+  rw [bumpStr_b, b_ok_iff]
+  refine ⟨?_, rfl⟩
+  have w := wd_range (ordOf t)
+  intro k hk
+  simp only [List.mem_cons, List.not_mem_nil, or_false] at hk
+  unfold InRange
+  unfold wdOf at *
+  generalize wd (ordOf t) = W at *
+  rcases hk with rfl | rfl | rfl
+  · unfold DAYUS MAXUS at *; split <;> omega
+  · unfold DAYUS MAXUS at *; split <;> omega
+  · unfold bOff DAYUS MAXUS at *; simp only []; repeat' split
+    all_goals omega
+
+-- the hypotheses are satisfiable: 2000-01-01 00:00, n = -60
+example : 200 * DAYUS ≤ (63082281600000000 : Int) ∧ (63082281600000000 : Int) + 200 * DAYUS < MAXUS ∧
+    (-60 : Int) ≤ -60 ∧ (-60 : Int) ≤ 60 := by decide
+
+/-- … and the value it gives is the closed form (so together with `b_datetime` the landing day is known, not only its existence) -/
+theorem b_total_value (t n : Int) (h0 : 200 * DAYUS ≤ t) (h1 : t + 200 * DAYUS < MAXUS) (hn : -60 ≤ n ∧ n ≤ 60) :
+    bumpStr t (tenor n 'b') = .ok (t + bOff (wdOf t) n * DAYUS) := by
+  obtain ⟨r, h⟩ := b_total t n h0 h1 hn
+  have h' := h
+  rw [bumpStr_b, b_ok_iff] at h'
+  rw [h, h'.2]
+
+/-! ### ints and timedeltas are the same bumps as the texts `'%dd'` / `'%d%s'` (not the definition: the right-hand sides go through
+`lower`, the named-tenor lookup, the tokenizer, `int(...)` and the generated unit table) -/
+
+/-- `dt_bump(t, b)` with a single argument is that argument's bump -/
+theorem dtBump_single (t : Int) (b : BumpArg) : dtBump t [b] = bumpOne t b := by
+  simp only [dtBump]
+  cases bumpOne t b <;> rfl
+
+/-- an integer argument IS the text `'%dd'`: `dt_bump(t, n) = dt_bump(t, '%dd' % n)` — same result or the same error, for every
+`t` and `n` (no range condition: both sides are `checkRange (t + n days)`) -/
+theorem int_is_days (t n : Int) : dtBump t [.int n] = bumpStr t (tenor n 'd') := by
+  rw [dtBump_single, fixed_exact_str 'd' 86400000000 rfl]
+  simp [bumpOne, DAYUS]
+
+/-- a timedelta of `n` whole units IS the text `'%d%s' % (n, c)` for `c` in d/w/h/n/s -/
+theorem timedelta_is_unit (c : Char) (us : Int) (hc : unitUs c = some us) (t n : Int) :
+    dtBump t [.delta (n * us)] = bumpStr t (tenor n c) := by
+  rw [dtBump_single, fixed_exact_str c us hc]
+  simp [bumpOne]
+
+example : unitUs 'h' = some 3600000000 := rfl
+
+/-- int ≡ timedelta(days) ≡ `'nd'`, as `dt_bump` ARGUMENTS (what C10's `int_td_str_agree` relies on) -/
+theorem int_td_str_args (t n : Int) :
+    dtBump t [.int n] = dtBump t [.delta (n * 86400000000)] ∧ dtBump t [.int n] = dtBump t [.str (tenor n 'd')] := by
+  refine ⟨?_, ?_⟩
+  · rw [int_is_days, timedelta_is_unit 'd' 86400000000 rfl]
+  · rw [int_is_days, dtBump_single]; rfl
+
+/-- … and inside any argument list: an int may be replaced by the text `'%dd'`, a whole-unit timedelta by `'%d%s'` -/
+theorem int_is_days_in_args (t n : Int) (pre post : List BumpArg) :
+    dtBump t (pre ++ .int n :: post) = dtBump t (pre ++ .str (tenor n 'd') :: post) := by
+  rw [args_left_to_right, args_left_to_right]
+  congr 1; funext t'
+  have h := int_is_days t' n
+  rw [dtBump_single] at h
+  simp only [dtBump, h]; rfl
+/-! ### totality on the property's quantifier (1900-01-01 ≤ t < 2300-01-01, any time of day, |n| ≤ 60) for every unit -/
+
+theorem mkDate_1900 : mkDate 1900 1 1 = 693595 * DAYUS := by decide +kernel
+theorem mkDate_2300 : mkDate 2300 1 1 = 839692 * DAYUS := by decide +kernel
+
+/-- every instant of 1900-01-01 … 2299-12-31 lies on a calendar date of those years: its midnight is `mkDate y m d` -/
+theorem date_of_instant (t : Int) (h0 : mkDate 1900 1 1 ≤ t) (h1 : t < mkDate 2300 1 1) :
+    ∃ y m d : Nat, Valid y m d ∧ 1900 ≤ y ∧ y < 2300 ∧ t - todOf t = mkDate y m d := by
+  rw [mkDate_1900] at h0; rw [mkDate_2300] at h1
+  have ho : 693596 ≤ ordOf t ∧ ordOf t < 839693 := by unfold ordOf DAYUS at *; omega
+  have hn : ((ordOf t).toNat : Int) = ordOf t := Int.toNat_of_nonneg (by omega)
+  obtain ⟨v, e⟩ := ord_fromOrd (ordOf t).toNat (by unfold ordMin; omega) (by unfold ordMax; omega)
+  have hb := ord_bounds _ _ _ v.toU
+  generalize fromOrd (ordOf t).toNat = p at *
+  have hv := v
+  unfold Valid at hv
+  have y0 : 1900 ≤ p.y := by
+    by_cases h : p.y < 1900
+    · have := dby_mono (p.y + 1) 1900 (by omega) (by omega)
+      rw [dby_1900] at this; omega
+    · omega
+  have y1 : p.y < 2300 := by
+    by_cases h : 2300 ≤ p.y
+    · have := dby_mono 2300 p.y (by omega) h
+      rw [dby_2300] at this; omega
+    · omega
+  refine ⟨p.y, p.m, p.d, v, y0, y1, ?_⟩
+  have s := split_t t
+  unfold mkDate
+  rw [e, hn]; omega
+
+/-- a month / quarter / year text bump ignores the time of day of its start -/
+theorem month_resets_time_str (c : Char) (hc : c = 'm' ∨ c = 'q' ∨ c = 'y') (t n : Int) :
+    bumpStr t (tenor n c) = bumpStr (t - todOf t) (tenor n c) := by
+  have T := month_units n
+  rcases hc with rfl | rfl | rfl
+  · rw [bumpStr_unit _ n 'm' (by decide) _ T.1, bumpStr_unit _ n 'm' (by decide) _ T.1]; exact month_resets_time _ _ _
+  · rw [bumpStr_unit _ n 'q' (by decide) _ T.2.1, bumpStr_unit _ n 'q' (by decide) _ T.2.1]; exact month_resets_time _ _ _
+  · rw [bumpStr_unit _ n 'y' (by decide) _ T.2.2, bumpStr_unit _ n 'y' (by decide) _ T.2.2]; exact month_resets_time _ _ _
+
+/-- `'nm'` / `'nq'` / `'ny'` SUCCEED for every instant `t` of 1900-01-01 … 2299-12-31 (any time of day) and every |n| ≤ 60, and the
+result is the keep-or-roll date counted from `t`'s own calendar date `(y, m, d)`: the hypotheses of `month_keep_or_roll_str`
+(`hym`, `hy'`) and the `= .ok r` hypotheses of `month_inverse_str` hold on the whole quantifier -/
+theorem month_total (c : Char) (k : Int) (hc : (c = 'm' ∧ k = 1) ∨ (c = 'q' ∧ k = 3) ∨ (c = 'y' ∧ k = 12))
+    (t n : Int) (h0 : mkDate 1900 1 1 ≤ t) (h1 : t < mkDate 2300 1 1) (hn : -60 ≤ n ∧ n ≤ 60) :
+    ∃ y m d y' m' : Nat, Valid y m d ∧ t - todOf t = mkDate y m d ∧
+      Gen.ym (y : Int) ((m : Int) + k * n) = ((y' : Int), (m' : Int)) ∧ 1 ≤ y' ∧ y' < 9999 ∧ 1 ≤ m' ∧ m' ≤ 12 ∧
+      bumpStr t (tenor n c) =
+        .ok (if d ≤ dim y' m' then mkDate y' m' d
+             else mkDate (nextMonth y' m').1 (nextMonth y' m').2 (d - dim y' m')) := by
+  obtain ⟨y, m, d, v, y0, y1, e⟩ := date_of_instant t h0 h1
+  have hv := v
+  unfold Valid at hv
+  have hk : k = 1 ∨ k = 3 ∨ k = 12 := by rcases hc with h | h | h <;> simp [h.2]
+  have hcc : c = 'm' ∨ c = 'q' ∨ c = 'y' := by rcases hc with h | h | h <;> simp [h.1]
+  have hN := ym_normal (y : Int) ((m : Int) + k * n)
+  have hY : 1 ≤ (Gen.ym (y : Int) ((m : Int) + k * n)).1 ∧ (Gen.ym (y : Int) ((m : Int) + k * n)).1 < 9999 := by
+    unfold Gen.ym; simp only []
+    rcases hk with rfl | rfl | rfl <;> omega
+  generalize hp : Gen.ym (y : Int) ((m : Int) + k * n) = p at hN hY
+  obtain ⟨Y, M⟩ := p
+  simp only at hN hY
+  have hym : Gen.ym (y : Int) ((m : Int) + k * n) = ((Y.toNat : Int), (M.toNat : Int)) := by
+    rw [hp, Int.toNat_of_nonneg (by omega), Int.toNat_of_nonneg (by omega)]
+  refine ⟨y, m, d, Y.toNat, M.toNat, v, e, hym, by omega, by omega, by omega, by omega, ?_⟩
+  rw [month_resets_time_str c hcc, e]
+  exact month_keep_or_roll_str c k hc y m d v n Y.toNat M.toNat hym (by omega)
+
+example : mkDate 1900 1 1 ≤ (63082281600000000 : Int) ∧ (63082281600000000 : Int) < mkDate 2300 1 1 := by decide +kernel
+
+/-- in particular: they return -/
+theorem month_total_ok (c : Char) (hc : c = 'm' ∨ c = 'q' ∨ c = 'y') (t n : Int)
+    (h0 : mkDate 1900 1 1 ≤ t) (h1 : t < mkDate 2300 1 1) (hn : -60 ≤ n ∧ n ≤ 60) : ∃ r, bumpStr t (tenor n c) = .ok r := by
+  have hc' : ∃ k, (c = 'm' ∧ k = (1 : Int)) ∨ (c = 'q' ∧ k = 3) ∨ (c = 'y' ∧ k = 12) := by
+    rcases hc with h | h | h
+    · exact ⟨1, Or.inl ⟨h, rfl⟩⟩
+    · exact ⟨3, Or.inr (Or.inl ⟨h, rfl⟩)⟩
+    · exact ⟨12, Or.inr (Or.inr ⟨h, rfl⟩)⟩
+  obtain ⟨k, hk⟩ := hc'
+  obtain ⟨_, _, _, _, _, _, _, _, _, _, _, _, h⟩ := month_total c k hk t n h0 h1 hn
+  exact ⟨_, h⟩
+
+/-- `'nd'`, `'nw'`, `'nh'`, `'nn'`, `'ns'` SUCCEED on the same quantifier, with the exact value -/
+theorem fixed_total (c : Char) (us : Int) (hc : unitUs c = some us) (t n : Int)
+    (h0 : mkDate 1900 1 1 ≤ t) (h1 : t < mkDate 2300 1 1) (hn : -60 ≤ n ∧ n ≤ 60) :
+    bumpStr t (tenor n c) = .ok (t + n * us) := by
+  rw [fixed_exact_str c us hc, checkRange_ok]
+  refine ⟨?_, rfl⟩
+  rw [mkDate_1900] at h0; rw [mkDate_2300] at h1
+  unfold unitUs at hc
+  unfold DAYUS MAXUS at *
+  split at hc <;> cases hc <;> omega
+
+example : unitUs 'w' = some 604800000000 ∧ mkDate 1900 1 1 ≤ mkDate 2299 12 31 + 86399999999 ∧ mkDate 2299 12 31 + 86399999999 < mkDate 2300 1 1 ∧
+    okVal (bumpStr (mkDate 2299 12 31 + 86399999999) (tenor 60 'w')) = some (mkDate 2299 12 31 + 86399999999 + 60 * 604800000000) := by decide +kernel
+
+/-- `'nb'` on the same quantifier (a corollary of `b_total`) -/
+theorem b_total_range (t n : Int) (h0 : mkDate 1900 1 1 ≤ t) (h1 : t < mkDate 2300 1 1) (hn : -60 ≤ n ∧ n ≤ 60) :
+    ∃ r, bumpStr t (tenor n 'b') = .ok r := by
+  rw [mkDate_1900] at h0; rw [mkDate_2300] at h1
+  exact b_total t n (by unfold DAYUS at *; omega) (by unfold DAYUS MAXUS at *; omega) hn
+/-! ### every spelling of a token (upper-case unit, explicit `+`, leading zeros) on the STRING level: `bumpStr` of the text as written -/
+
+example : resolveNamed (lower "+03B") = lower "+03B" ∧ resolveNamed (lower "Spot") ≠ lower "Spot" := by decide
+
+/-- a string that is not a named tenor (after `lower()`) goes to the tokenizer loop as its lower-cased characters -/
+theorem bumpStr_general (t : Int) (s : String) (h : resolveNamed (lower s) = lower s) : bumpStr t s = bumpCs (lower s) t := by
+  unfold bumpStr; rw [h]
+
+/-- what `bump.lower()` does to a token as written: only the unit letter changes -/
+def lowerTok (k : Tok) : Tok := ⟨k.sign, k.digits, k.unit.toLower⟩
+
+theorem lowerTok_value (k : Tok) : (lowerTok k).value = k.value := by
+  unfold lowerTok Tok.value; cases k.sign <;> rfl
+
+theorem lowerTok_wf (k : Tok) (wf : k.WF) : (lowerTok k).WF :=
+  ⟨wf.1, wf.2.1, (toLower_unit k.unit wf.2.2).1⟩
+
+theorem map_toLower_digits (ds : List Char) (hd : ∀ c ∈ ds, c.isDigit = true) : ds.map Char.toLower = ds := by
+  conv => rhs; rw [← List.map_id ds]
+  apply List.map_congr_left
+  intro c hc; exact toLower_digit c (hd c hc)
+
+theorem lower_tok_text (k : Tok) (wf : k.WF) : k.text.map Char.toLower = (lowerTok k).text := by
+  unfold Tok.text lowerTok
+  simp only [List.map_append, map_toLower_digits k.digits wf.2.1, List.map_cons, List.map_nil]
+  cases k.sign <;> simp <;> decide
+
+/-- `lower()` of a text made of well-formed tokens (any sign spelling, any digit string, unit letters in either case) is the
+text of the lower-cased tokens -/
+theorem lower_tokens (ks : List Tok) (wf : ∀ k ∈ ks, k.WF) :
+    lower (String.ofList (ks.flatMap Tok.text)) = (ks.map lowerTok).flatMap Tok.text := by
+  unfold lower
+  rw [String.toList_ofList]
+  induction ks with
+  | nil => rfl
+  | cons k ks ih =>
+    simp only [List.flatMap_cons, List.map_append, List.map_cons]
+    rw [ih (fun x hx => wf x (by simp [hx])), lower_tok_text k (wf k (by simp))]
+
+theorem named_heads_plus : ∀ kv ∈ Gen.namedTenors, (match kv.1.toList with | c :: _ => c != '+' | [] => true) = true := by decide
+
+/-- no named tenor begins with a plus sign -/
+theorem resolveNamed_plus (r : List Char) : resolveNamed ('+' :: r) = '+' :: r := by
+  unfold resolveNamed
+  have : Gen.namedTenors.find? (fun kv => kv.1.toList == '+' :: r) = none := by
+    rw [List.find?_eq_none]
+    intro kv hkv
+    have h := named_heads_plus kv hkv
+    cases e : kv.1.toList with
+    | nil => simp
+    | cons c' r' =>
+      rw [e] at h
+      simp only [bne_iff_ne, ne_eq] at h
+      simp only [beq_iff_eq, List.cons.injEq, not_and]
+      intro hc; exact absurd hc h
+  rw [this]
+
+/-- a text of well-formed tokens is not a named tenor -/
+theorem resolveNamed_tokens (ks : List Tok) (wf : ∀ k ∈ ks, k.WF) :
+    resolveNamed (ks.flatMap Tok.text) = ks.flatMap Tok.text := by
+  cases ks with
+  | nil => exact resolveNamed_nil
+  | cons k ks =>
+    have wk := wf k (by simp)
+    obtain ⟨d0, ds, hds⟩ : ∃ d0 ds, k.digits = d0 :: ds := by
+      cases h : k.digits with
+      | nil => exact absurd h wk.1
+      | cons a b => exact ⟨a, b, rfl⟩
+    have hd0 : d0.isDigit = true := wk.2.1 d0 (by simp [hds])
+    simp only [List.flatMap_cons, Tok.text, hds]
+    cases k.sign
+    · exact resolveNamed_num d0 _ (Or.inl hd0)
+    · exact resolveNamed_plus _
+    · exact resolveNamed_num '-' _ (Or.inr rfl)
+
+/-- END TO END for every spelling the `period` regex reads: a string made of well-formed tokens — optional `+` or `-`, any
+non-empty digit string (leading zeros included), unit letter in either case — is applied token by token, left to right, each
+token with its unit letter lower-cased -/
+theorem bumpStr_toks (t : Int) (ks : List Tok) (wf : ∀ k ∈ ks, k.WF) :
+    bumpStr t (String.ofList (ks.flatMap Tok.text)) = runToks t (ks.map lowerTok) := by
+  have wf' : ∀ k ∈ ks.map lowerTok, k.WF := by
+    intro k hk
+    simp only [List.mem_map] at hk
+    obtain ⟨x, hx, rfl⟩ := hk
+    exact lowerTok_wf x (wf x hx)
+  rw [bumpStr_general, lower_tokens ks wf]
+  · exact tenor_left_to_right _ wf' t
+  · rw [lower_tokens ks wf]; exact resolveNamed_tokens _ wf'
+
+/-- a token does what the canonical `'%d%s'` token with the same count and unit does -/
+theorem applyTok_canon (t : Int) (k : Tok) : applyTok t (lowerTok k) = applyTok t (numTok k.value k.unit.toLower) := by
+  unfold applyTok
+  rw [lowerTok_value, numTok_value]; rfl
+
+theorem runToks_canon (t : Int) (ks : List Tok) :
+    runToks t (ks.map lowerTok) = runToks t (ks.map fun k => numTok k.value k.unit.toLower) := by
+  induction ks generalizing t with
+  | nil => rfl
+  | cons k ks ih =>
+    simp only [List.map_cons, runToks, applyTok_canon]
+    cases applyTok t (numTok k.value k.unit.toLower) with
+    | error e => rfl
+    | ok t' => simp only [Except.bind]; exact ih t'
+
+/-- … hence ANY spelling of a compound tenor is the canonical lower-case `'%d%s'` text of its (count, unit) pairs, and (by
+`tenors_left_to_right`) the same as `dt_bump` called with the canonical parts as separate arguments -/
+theorem spelled_tenors (t : Int) (ks : List Tok) (wf : ∀ k ∈ ks, k.WF) :
+    bumpStr t (String.ofList (ks.flatMap Tok.text)) = bumpStr t (tenors (ks.map fun k => (k.value, k.unit.toLower))) ∧
+    bumpStr t (String.ofList (ks.flatMap Tok.text)) = dtBump t (ks.map fun k => .str (tenor k.value k.unit.toLower)) := by
+  have hu : ∀ p ∈ ks.map (fun k => (k.value, k.unit.toLower)), LowerUnit p.2 := by
+    intro p hp
+    simp only [List.mem_map] at hp
+    obtain ⟨x, hx, rfl⟩ := hp
+    exact toLower_unit x.unit (wf x hx).2.2
+  have e1 : bumpStr t (String.ofList (ks.flatMap Tok.text)) = bumpStr t (tenors (ks.map fun k => (k.value, k.unit.toLower))) := by
+    rw [bumpStr_toks t ks wf, runToks_canon, bumpStr_tenors_toks t _ hu, List.map_map]; rfl
+  refine ⟨e1, ?_⟩
+  rw [e1, tenors_left_to_right t _ hu, List.map_map]; rfl
+
+/-- one token in any spelling = the canonical `tenor n c` -/
+theorem spelled_tenor (t : Int) (k : Tok) (wf : k.WF) :
+    bumpStr t (String.ofList k.text) = bumpStr t (tenor k.value k.unit.toLower) := by
+  have h := (spelled_tenors t [k] (by intro x hx; simp only [List.mem_singleton] at hx; subst hx; exact wf)).1
+  simp only [List.flatMap_cons, List.flatMap_nil, List.append_nil, List.map_cons, List.map_nil] at h
+  rw [h]; unfold tenors tenor; simp
+
+/-! the spellings the generator `tok()` (harness/pv/props/c09.py) emits for `(n, u)`, `u` a lower-case unit letter -/
+
+theorem digitsVal_zeros (z : Nat) (ds : List Char) : digitsVal (List.replicate z '0' ++ ds) = digitsVal ds := by
+  unfold digitsVal
+  induction z with
+  | zero => rfl
+  | succ z ih => simp only [List.replicate_succ, List.cons_append, List.foldl_cons]; exact ih
+
+/-- `'+%d%s'` (n ≥ 0) -/
+def plusTok (n : Nat) (u : Char) : Tok := ⟨.plus, (Nat.repr n).toList, u⟩
+/-- `('%d%s' % (n, u)).upper()`: digits and the minus sign are unchanged, the unit letter is upper-cased -/
+def upperTok (n : Int) (u : Char) : Tok := numTok n u.toUpper
+/-- `'0…0%d%s'` / `'-0…0%d%s'`: `z` leading zeros (`tok()` writes one) -/
+def zeroTok (z : Nat) (n : Int) (u : Char) : Tok :=
+  ⟨if n < 0 then .minus else .none, List.replicate z '0' ++ (Nat.repr n.natAbs).toList, u⟩
+
+example : String.ofList (plusTok 3 'b').text = "+3b" ∧ String.ofList (upperTok (-3) 'b').text = "-3B" ∧
+    String.ofList (zeroTok 1 (-3) 'b').text = "-03b" ∧ String.ofList (zeroTok 1 12 'm').text = "012m" := by decide
+
+theorem upper_units : ∀ u ∈ periodUnits, u.toUpper ∈ periodUnits ∧ u.toUpper.toLower = u.toLower := by decide
+
+/-- each of them is a well-formed token that is read as the same count and (lower-case) unit as `'%d%s' % (n, u)` -/
+theorem spellings_read (u : Char) (hu : LowerUnit u) :
+    (∀ n : Nat, (plusTok n u).WF ∧ (plusTok n u).value = n ∧ (plusTok n u).unit.toLower = u) ∧
+    (∀ n : Int, (upperTok n u).WF ∧ (upperTok n u).value = n ∧ (upperTok n u).unit.toLower = u) ∧
+    (∀ (z : Nat) (n : Int), (zeroTok z n u).WF ∧ (zeroTok z n u).value = n ∧ (zeroTok z n u).unit.toLower = u) := by
+  refine ⟨fun n => ⟨⟨repr_ne_nil _, repr_digits _, hu.1⟩, ?_, hu.2⟩, fun n => ⟨numTok_wf _ _ (upper_units u hu.1).1, numTok_value _ _, ?_⟩,
+    fun z n => ⟨⟨?_, ?_, hu.1⟩, ?_, hu.2⟩⟩
+  · unfold plusTok Tok.value; simp only [digitsVal_repr]
+  · show u.toUpper.toLower = u
+    rw [(upper_units u hu.1).2, hu.2]
+  · unfold zeroTok; simp only []
+    intro h
+    have := congrArg List.length h
+    simp only [List.length_append, List.length_replicate, List.length_nil] at this
+    have := repr_ne_nil n.natAbs
+    cases hl : (Nat.repr n.natAbs).toList with
+    | nil => exact this hl
+    | cons a b => rw [hl] at *; simp at *
+  · unfold zeroTok; simp only []
+    intro c hc
+    rw [List.mem_append] at hc
+    rcases hc with hc | hc
+    · rw [List.mem_replicate] at hc; rw [hc.2]; decide
+    · exact repr_digits _ c hc
+  · unfold zeroTok Tok.value
+    by_cases h : n < 0 <;> simp only [h, if_true, if_false, digitsVal_zeros, digitsVal_repr] <;> omega
+
+/-- so every text the generator writes for `(n, u)` is the bump `tenor n u`: `'+3b'`, `'3B'`, `'03b'`, `'-03b'` ≡ `'3b'` / `'-3b'` -/
+theorem generator_spellings (t : Int) (u : Char) (hu : LowerUnit u) :
+    (∀ n : Nat, bumpStr t (String.ofList (plusTok n u).text) = bumpStr t (tenor n u)) ∧
+    (∀ n : Int, bumpStr t (String.ofList (upperTok n u).text) = bumpStr t (tenor n u)) ∧
+    (∀ (z : Nat) (n : Int), bumpStr t (String.ofList (zeroTok z n u).text) = bumpStr t (tenor n u)) := by
+  obtain ⟨a, b, c⟩ := spellings_read u hu
+  refine ⟨fun n => ?_, fun n => ?_, fun z n => ?_⟩
+  · rw [spelled_tenor t _ (a n).1, (a n).2.1, (a n).2.2]
+  · rw [spelled_tenor t _ (b n).1, (b n).2.1, (b n).2.2]
+  · rw [spelled_tenor t _ (c z n).1, (c z n).2.1, (c z n).2.2]
+
+example : LowerUnit 'b' := by decide
+example : okVal (bumpStr 63082627200000000 "+3B") = some 63083059200000000 ∧ okVal (bumpStr 63082627200000000 "003b") = some 63083059200000000 := by
+  decide +kernel
+
+-- a compound text mixing the spellings: `'+1Y-03m2D'` is `'1y-3m2d'`
+example : String.ofList (([⟨.plus, ['1'], 'Y'⟩, ⟨.minus, ['0', '3'], 'm'⟩, ⟨.none, ['2'], 'D'⟩] : List Tok).flatMap Tok.text) = "+1Y-03m2D" ∧
+    (∀ k ∈ ([⟨.plus, ['1'], 'Y'⟩, ⟨.minus, ['0', '3'], 'm'⟩, ⟨.none, ['2'], 'D'⟩] : List Tok), k.WF) ∧
+    tenors (([⟨.plus, ['1'], 'Y'⟩, ⟨.minus, ['0', '3'], 'm'⟩, ⟨.none, ['2'], 'D'⟩] : List Tok).map fun k => (k.value, k.unit.toLower)) = "1y-3m2d" := by
+  decide
+
 end Pyg.Props.C09
